@@ -63,6 +63,25 @@ def spline_build_execs(ctx, r, nrep, tdom="W", with_knots=True, with_energy=True
                         cmds.append({"op": "note", "what": "same", "a": 1, "b": 2})
                     s = (order + 1) // 2
                     execs.append((n * dim * s * (2 if pair else 1) + 5, cmds))
+    # problems of W scaled uniformly in time by large powers of two (milliseconds ... hours; boundary derivatives rescaled so that it is
+    # the same curve): the well-scaled domain of the properties bounds the RATIO of durations, not their overall size
+    for rep in range(nrep):
+        for order in gen.ORDERS:
+            for dim in (1, 2, 4, 5):
+                for n in (1, 2, 3, 5):
+                    k += 1
+                    f = 2.0 ** (-9, -6, 6, 9, 11, 14)[(k + rep) % 6]
+                    pr = r.problem(order, dim, n, tdom=tdom)
+                    pr = dict(pr); pr["T"] = [t * f for t in pr["T"]]
+                    pr["bc"] = {kk: [x / f ** {"v": 1, "a": 2, "j": 3}[kk[1]] for x in vv] for kk, vv in pr["bc"].items()}
+                    how = hows[(k + rep) % 4]
+                    cmds = [{"op": "reset"}, gen.build_cmd(1, pr, how, 6)]
+                    if with_knots:
+                        cmds.append({"op": "knots", "obj": 1})
+                    if with_energy:
+                        cmds.append({"op": "energy", "obj": 1})
+                    cmds.append({"op": "state", "obj": 1})
+                    execs.append((n * dim * ((order + 1) // 2) + 5, cmds))
     # long splines (beyond the sizes of the exact dense solve): judged by the exact residuals of the defining equations, exact energy and
     # bookkeeping; sizes around powers of two and the lookup threshold 32
     if big:
@@ -471,7 +490,7 @@ def plan_C14(ctx):
     for rep in range(1 if ctx.quick() else 20):
         for order in gen.ORDERS:
             for n in (1, 2, 3, 4):
-                for dim in (1, 2, 3):
+                for dim in (1, 2, 3, 4, 6):
                     small = (order + 1) * n <= 16
                     pr = r.problem(order, dim, n, dcls=r.choice(["grid", "real"]), dyadic=None if small else True)
                     gm = math.exp(sum(math.log(t) for t in pr["T"]) / n)
@@ -497,6 +516,12 @@ def plan_C14(ctx):
                     q = dict(pr); q["T"] = [t * f for t in pr["T"]]
                     q["bc"] = {k: [x / f ** {"v": 1, "a": 2, "j": 3}[k[1]] for x in vv] for k, vv in pr["bc"].items()}
                     cmds += obj_cmds(5, q) + [{"op": "note", "what": "xform", "kind": "tscale", "a": 1, "b": 5, "f": gen.hx(f)}]
+                    # scale time by large powers of two, far outside W (minutes, hours, milliseconds): the relation is exact in floating
+                    # point for a scale-covariant solver; absolute thresholds on durations or determinants show up here
+                    for oid, f in ((7, r.choice([2.0 ** 6, 2.0 ** 9, 2.0 ** 11, 2.0 ** 14])), (8, r.choice([2.0 ** -5, 2.0 ** -7, 2.0 ** -9]))):
+                        q = dict(pr); q["T"] = [t * f for t in pr["T"]]
+                        q["bc"] = {k: [x / f ** {"v": 1, "a": 2, "j": 3}[k[1]] for x in vv] for k, vv in pr["bc"].items()}
+                        cmds += obj_cmds(oid, q) + [{"op": "note", "what": "xform", "kind": "tscale", "a": 1, "b": oid, "f": gen.hx(f)}]
                     # reverse
                     q = dict(pr); q["T"] = pr["T"][::-1]; q["P"] = pr["P"][::-1]
                     sg = {"v": -1.0, "a": 1.0, "j": -1.0}
@@ -509,8 +534,8 @@ def plan_C14(ctx):
     ctx.samples = sample_of(batches)
     replay_and_validate(ctx, exe, batches, "TraceSpline", env)
     return finish(ctx, "model_checking",
-                  "3 orders x N 1..4 x dimension 1..3: a problem and its five transforms (start-time shift, translation, space scaling incl. "
-                  "non-powers of two and -1, time scaling, time reversal) in one execution; shift: identical coefficient/energy/gradient bits; "
+                  "3 orders x N 1..4 x dimension {1,2,3,4,6}: a problem and its transforms (start-time shift, translation, space scaling incl. "
+                  "non-powers of two and -1, time scaling inside W and by 2^6..2^14 and 2^-5..2^-9, time reversal) in one execution; shift: identical coefficient/energy/gradient bits; "
                   "others: recordings compared with the transform of the original recording, and each recording with its own exact minimiser, "
                   "energy and exact energy gradient; the transformation laws themselves are TLC theorems on the grid (MCSplineMath!Metamorphic)",
                   TRUSTED, ["durations in W"], props_judged={"C14", "C02", "C04", "C06"})
